@@ -569,7 +569,7 @@ def run_shard(spec, acc):
             run_case(spec["witness"]["seed"], acc)
         return
     tier, k, n = spec["tier"], spec["shard"], spec["nshards"]
-    total = 9000 if tier == "quick" else 400000
+    total = 18000 if tier == "quick" else 400000
     rng = random.Random("C13/%s/%s" % (spec["seed"], k))
     for j in range(total // n):
         s = rng.randrange(1 << 48)
